@@ -3,7 +3,7 @@ import Verif.Proofs.JsStringMain
 # C01E — string literal rewriting preserves the string value (growth item E of C01)
 
 Property theorems only.  Model: `Verif.Model.JsString` (behavioural model of `minifyString` and
-`replaceEscapes` in js/util.go as of /repo 42d690f); specification: `Verif.Spec.JsStringSem`
+`replaceEscapes` incl. `escapeHTMLEnds` in js/util.go as of /repo a80add2); specification: `Verif.Spec.JsStringSem`
 (`decodeLit strict s`: the ECMAScript string value of a `'…'`, `"…"` or substitution-free template literal
 as UTF-16 code units; `wfLit`: the literal is valid in the given mode).  Bytes are `Nat`s.
 `strict` is universally quantified everywhere: the statements hold for sloppy and for strict code.
@@ -31,7 +31,7 @@ def template_value_preserved : Prop :=
     incl. the switch to a template and its gate, quote and `${` escaping, `\xHH`, `\uHHHH` and `\u{…}` (decoded to UTF-8,
     re-escaped or kept), the legacy octal escapes `\1`…`\377` (decoded, re-escaped, rewritten to `\xHH`, or kept as
     `\74`), `\8` `\9`, `\0`, line continuations, `\n` `\r` `\t` `\b` `\f` `\v`, identity escapes, raw UTF-8, raw CR / LF / CRLF
-    in templates, the `</script>` guard.  The seam after `\0` (the `afterNul` logic of the code) is covered by the
+    in templates, the `</script` / `<!--` guards (in the loop and the pass `escapeHTMLEnds` behind it).  The seam after `\0` (the `afterNul` logic of the code) is covered by the
     exhaustive correspondence + V8 oracle of the harness, not by this theorem. -/
 theorem string_value_preserved_partial (strict allowTemplate : Bool) (s : List Nat)
     (hq : s.head? = some 39 ∨ s.head? = some 34) (hw : wfLit strict s)
@@ -119,24 +119,49 @@ example : (minifyString true (lit "'\\08\\n\\n'")).head? = some 34 := by decide
 /-- after `\0` a kept line continuation `\<CR>` cannot merge with a decoded LF -/
 example : decodeLit false (templateLit [96, 92, 48, 92, 13, 92, 110, 96]) = some [0, 10] := by decide
 
-/-! ## length, `</script>` -/
+/-! ## length, `</script`, `<!--` -/
 
 /-- FULL STATEMENT: the output is never longer than the input -/
 def not_longer : Prop := ∀ (allowTemplate : Bool) (s : List Nat), (minifyString allowTemplate s).length ≤ s.length
 
-/-- it is false: the `</script>` guard inserts a backslash -/
+/-- it is false: the `</script` / `<!--` guards insert a backslash -/
 theorem not_longer_counterexample : ¬ not_longer := fun h =>
   absurd (h false (lit "'</script>'")) (by decide)
 
-/-- FULL STATEMENT: the output never contains `</script>` -/
-def no_script_end : Prop := ∀ (allowTemplate : Bool) (s : List Nat), hasScriptEnd (minifyString allowTemplate s) = false
+/-- FULL STATEMENT (all inputs, no hypothesis): the output never contains `</script` in any letter case nor `<!--` —
+    however the text was formed (written out, decoded from `\x2f` / `\57` / `\u002f`, left over after a removed line
+    continuation).  `escapeHTMLEnds` (a80add2) runs over the rewritten body. -/
+theorem no_html_end (allowTemplate : Bool) (s : List Nat) : hasHtmlEnd (minifyString allowTemplate s) = false := by
+  unfold minifyString
+  split
+  · decide
+  · have hq := Verif.Proofs.JsString.chooseQuote_isQ allowTemplate ((s.drop 1).dropLast)
+    rw [List.cons_append, Verif.Proofs.JsString.hasHtmlEnd_quote hq]
+    exact Verif.Proofs.JsString.escEnds_clean hq _
 
-/-- it is false: the guard looks at raw text only, `'<\x2fscript>'` is decoded to `"</script>"` -/
-theorem no_script_end_counterexample : ¬ no_script_end := fun h =>
-  absurd (h false (lit "'<\\x2fscript>'")) (by decide)
+/-- … the same for a template literal without substitutions -/
+theorem no_html_end_template (s : List Nat) (h : 2 ≤ s.length) : hasHtmlEnd (templateLit s) = false := by
+  unfold templateLit
+  rw [if_neg (by omega)]
+  have hq : IsQ 96 := Or.inr (Or.inr rfl)
+  rw [List.cons_append, Verif.Proofs.JsString.hasHtmlEnd_quote hq]
+  exact Verif.Proofs.JsString.escEnds_clean hq _
 
-/-- what the guard does guarantee on raw text: `</script>` written out in the source is broken up -/
+/-- FULL STATEMENT: the output never contains `</script>` (the former counterexample `'<\x2fscript>'`, K-C01E-1, is
+    repaired) -/
+theorem no_script_end (allowTemplate : Bool) (s : List Nat) : hasScriptEnd (minifyString allowTemplate s) = false := by
+  cases h : hasScriptEnd (minifyString allowTemplate s) with
+  | false => rfl
+  | true =>
+    have := Verif.Proofs.JsString.hasScriptEnd_le _ h
+    rw [no_html_end] at this
+    cases this
+
+example : minifyString false (lit "'<\\x2fscript>'") = lit "\"<\\/script>\"" := by decide
 example : minifyString false (lit "'a</script>b'") = lit "\"a<\\/script>b\"" := by decide
-example : hasScriptEnd (minifyString true (lit "'</script></script>'")) = false := by decide
+example : minifyString false (lit "'<\\x21--'") = lit "\"<\\!--\"" := by decide
+example : hasHtmlEnd (minifyString true (lit "'</script></SCRIPT><!--'")) = false := by decide
+/-- the value is still that of the input: `\/` and `\!` are identity escapes -/
+example : decodeLit false (minifyString false (lit "'<\\x2fscript>'")) = decodeLit false (lit "'</script>'") := by decide
 
 end Verif.Props.C01E
